@@ -177,3 +177,12 @@ From FV Require TieNodes.
 Theorem C15_policy_consulted_when_acted_upon : SrcFragments.Machine_slot_before_index_draw = true.
 Proof. exact TieNodes.machine_slot_before_index_draw_src. Qed.
 Print Assumptions C15_policy_consulted_when_acted_upon.
+
+Theorem C15_round_robin_push_touches_only_the_chosen_edge :
+  forall w p,
+  let n := pown (me w p) in let nd := get_node w n in
+  ppc (me w p) = 1%nat -> noutsel nd = PRoundRobin -> nblocking nd = true -> nouts nd <> [] ->
+  (n < length (wnodes w))%nat ->
+  FactoryBlocks.only_edge (nth (noutptr nd mod length (nouts nd)) (nouts nd) 0%nat) w (fst (worker_block w p)).
+Proof. exact FactoryBlocks.worker_round_robin_touches_one_edge. Qed.
+Print Assumptions C15_round_robin_push_touches_only_the_chosen_edge.
